@@ -1,9 +1,9 @@
 """C17 — fences catch every overflow beside low-level allocations; fill patterns exact (DESIGN.md #C17)"""
 import subprocess, subjects, common
 
-SPEC = dict(modules=["MemVerif.Props.C17"], gen_cfgs=("rwdi",),
+SPEC = dict(modules=["MemVerif.Props.C17", "MemVerif.Props.C17Stack"], gen_cfgs=("rwdi",),
             assumptions=["the byte-level model covers debug_fill_new/debug_fill_free/debug_is_filled and the [fence|node|fence] layout of the four "
-                         "low-level allocators; the pattern claims for pools/collections/stacks (new pattern on every returned byte, freed pattern "
+                         "low-level allocators, and the writes of the bump stacks (memory_stack, iteration_allocator); the pattern claims for pools/collections (new pattern on every returned byte, freed pattern "
                          "except link bytes after a release, neighbours untouched) are oracles on the real code over the C01 histories",
                          "the freed pattern of a low-level node cannot be observed after deallocate_node (the memory is returned to the OS); it is "
                          "proved for the model and observed for pools",
